@@ -69,7 +69,7 @@ def gfa_text(g, gfa_order):
     return "".join(l.line() + "\n" for l in g.links) + "".join(x.line() + "\n" for x in reversed(list(g.segs.values())))
 
 
-def check_index(res, g, L, lm, stable, recs, variant, scratch, tag="x", gfa_order="so", pad=None):
+def check_index(res, g, L, lm, stable, recs, variant, scratch, tag="x", gfa_order="so", pad=None, keep_gaf=False):
     gfa_path = os.path.join(scratch, "g.gfa")
     fw.write_text(gfa_path, gfa_text(g, gfa_order))
     unpadded = recs
@@ -77,7 +77,8 @@ def check_index(res, g, L, lm, stable, recs, variant, scratch, tag="x", gfa_orde
         recs = vi.pad_records(recs, pad)
     text = "".join(r.line() + "\n" for r in recs)
     gaf_path = os.path.join(scratch, f"{tag}.gaf" + ("" if variant[0].startswith("plain") else ".gz"))
-    vi.write_gaf(gaf_path, text, variant)
+    if not (keep_gaf and os.path.exists(gaf_path)):
+        vi.write_gaf(gaf_path, text, variant)
     res.next_call()
     out, ind = vi.run_index(gaf_path, gfa_path)
     res.count("index_runs")
@@ -148,6 +149,12 @@ def run_shard(spec, tier, scratch):
     L = conv.layout_from(spec["layout"])
     lm = spec["linkmode"]
     g = vi.graph_for(L, lm)
+    # an index run in this process on the same contig names tiled differently comes first
+    other = gen.Layout(tuple(reversed(L.ref_lens)) + (2,), L.pattern if L.pattern != "one" else "touching2", L.scale)
+    og = vi.graph_for(other, lm)
+    ou, os_ = record_sets(og, other, 2)
+    if os_:
+        check_index(fw.ShardResult(), og, other, lm, True, os_[:60], ("plain",), scratch, "prime")
     urecs, srecs = record_sets(g, L, b["max_steps"])
     res.count("walk_records", len(urecs))
     for stable, recs in ((False, urecs), (True, srecs)):
@@ -156,6 +163,12 @@ def run_shard(spec, tier, scratch):
         check_index(res, g, L, lm, stable, recs, ("plain",), scratch, "all")
         check_index(res, g, L, lm, stable, recs[::-1], ("plain",), scratch, "rev", gfa_order="rev")
         check_index(res, g, L, lm, stable, recs, ("pysam",), scratch, "allgz", gfa_order="rev")
+        if not stable and L.scale == 1:
+            # the very same GAF file (not rewritten) re-indexed against another graph with the same segment names but
+            # other intervals: the index left by the first run must not survive
+            L37 = gen.Layout(L.ref_lens, L.pattern, 37)
+            check_index(res, vi.graph_for(L37, lm), L37, lm, stable, recs, ("plain",), scratch, "all", keep_gaf=True)
+            res.count("reindex_same_gaf_other_graph")
         check_index(res, g, L, lm, stable, recs, ("plain-nonl",), scratch, "nonl")
         check_index(res, g, L, lm, stable, recs[::-1], ("pysam-nonl",), scratch, "nonlgz")
         if spec.get("bgzf"):
